@@ -1,4 +1,5 @@
-"""C07 - instruction read/write annotations match machine semantics (x86-64, native single-stepping)."""
+"""C07 - instruction read/write annotations match machine semantics (x86-64: native single-stepping; riscv,
+riscv:rvc and arm: emulators vf/rv32.py and vf/arm32.py, each used only when its own self-check passes)."""
 
 import re
 
@@ -26,18 +27,20 @@ def is_emu(target):
 
 RULE = (
     "instruction instances AS THE CODE GENERATOR EMITS THEM, for x86_64 and (when vf/rv32.py passes its self-check) riscv and "
-    "riscv:rvc: the final (post register allocation) instruction list of every frame is captured by wrapping "
+    "riscv:rvc and (when vf/arm32.py passes its self-check) arm (A32): the final (post register allocation) instruction list of every frame is captured by wrapping "
     "CodeGenerator.emit_frame_to_stream while compiling (a) a fixed corpus of small C idiom functions at -O0 and -O2 and "
     "one-instruction IR functions for the 8/16-bit operations, (b) Hypothesis-generated C programs (vf/gencc.py) and (c) "
     "Hypothesis-generated IR modules (vf/genir.py); every real instruction becomes a unit = (class, operands, the "
     "RegisterUseDef pseudo-instructions directly before/after it; x86 `rep` + `movsb` form one unit); each harvested unit is "
     "tested as emitted and re-instantiated with other registers / immediates / displacements of the same operand shape "
-    "(vf/isagen.py, allocatable registers only). In addition EVERY class of the x86_64 / riscv / riscv:rvc isa that "
+    "(vf/isagen.py, allocatable registers only). In addition EVERY class of the x86_64 / riscv / riscv:rvc / arm isa that "
     "vf/isagen.py instantiates (outside the excluded categories) is enumerated once per operand form (register mode and every "
     "memory mode of its constructor-typed operand) as a stand-alone unit WITHOUT RegisterUseDef context, judged by the class' own "
     "annotations: quick = three fixed operand tuples per form, thorough adds drawn tuples; forms that cannot be judged alone are "
     "counted needs_context. Each instance is executed (x86-64: natively through vf/x86step.c; RISC-V: "
-    "vf/rv32.py) on boundary-biased random register files (x86: 16 GPRs, 6 arithmetic flags, xmm0-15; RISC-V: x1-x31; address "
+    "vf/rv32.py; ARM: vf/arm32.py, conditional instructions included, what an encoding is at machine level - memory access, "
+    "control transfer, pc operand - is read from the emulator's decoder) on boundary-biased random register files (x86: 16 GPRs, "
+    "6 arithmetic flags, xmm0-15; RISC-V: x1-x31; ARM: r0-r14 and a random NZCV; address "
     "registers point into a refilled scratch arena) and, for every state, on copies that differ in the undeclared bits of ONE "
     "register. Oracle (writes): a ppci register whose bits changed must lie in the alias closure (arch.info.alias) of operand "
     "writes + clobbers + adjacent RegisterUseDef defs; (reads): runs that agree on declared reads + adjacent uses + flags + "
@@ -47,6 +50,8 @@ RULE = (
 ASSUMPTIONS = [
     "the host CPU implements the x86-64 architecture as documented (it is the reference machine); vf/rv32.py implements RV32IMC as documented (validated independently of ppci by its self-check, refused otherwise)",
     "x86 rflags and mxcsr are implicit machine state that ppci does not model: flag reads/writes are not annotations; both runs of a read check start from equal flags",
+    "ARM: ppci has no register for the APSR either, so NZCV is implicit state under the same policy (cmp / adc / conditional execution read or write it without annotation; both runs of a read check start from the same random NZCV, the flags afterwards are not compared); vf/arm32.py implements the A32 integer instruction set as documented (validated independently of ppci by its self-check, refused otherwise)",
+    "ARM push / pop: the stack pointer is documented implicit state (allowed), the registers of the list are operands and are judged; instructions whose operands include the pc, control transfers, and encodings the manual calls UNPREDICTABLE or that the emulator does not model (coprocessor, VFP) decide nothing and are excluded / discarded with a count",
     "bits 64-127 of the xmm registers are not modelled by any ppci register and are ignored",
     "adjacent RegisterUseDef pseudo-instructions (contiguous run directly before and after the instruction, labels break the run) declare the implicit operands of that instruction; an adjacent def is an output of the instruction only in the bits the instruction is observed to change",
     "re-instantiated variants keep the harvested RegisterUseDef neighbourhood (the implicit operands are fixed registers)",
@@ -60,17 +65,18 @@ TRUSTED = [
     "the host x86-64 CPU",
     "vf/x86step.c + vf/x86step.py (trampoline, register table from Intel SDM vol.1 3.4.1 / 10.2.2)",
     "vf/rv32.py + vf/rvstep.py (RISC-V emulator with its own self-validation against llvm-mc and clang/gcc)",
+    "vf/arm32.py + vf/armstep.py (ARMv7-A A32 emulator written from the ARM ARM, self-validated against llvm-mc (decode), clang-compiled C vs native gcc (semantics) and hand vectors from the manual; clang, gcc, llvm-mc are trusted for that)",
     "GNU objdump, llvm-mc (encoding guard only)",
     "vf/isagen.py, vf/gencc.py, vf/genir.py (generators)",
 ]
 REGISTER = True
-TECHNIQUE = "single-stepping of harvested and re-instantiated instructions (x86-64 natively, RISC-V in a validated emulator) on random register files; write-set and read-set (perturb one register) oracles against ppci's annotations"
+TECHNIQUE = "single-stepping of harvested and re-instantiated instructions (x86-64 natively, RISC-V and ARM A32 in validated emulators) on random register files; write-set and read-set (perturb one register) oracles against ppci's annotations"
 LEVEL_TEXT = (
-    "Exploration: every instruction class and operand shape the x86-64 and RISC-V code generators emitted for the corpora is "
-    "executed (x86-64 on the real CPU, RISC-V in an emulator validated independently of ppci) from random machine states; "
+    "Exploration: every instruction class and operand shape the x86-64, RISC-V and ARM code generators emitted for the corpora is "
+    "executed (x86-64 on the real CPU, RISC-V and ARM A32 in emulators validated independently of ppci) from random machine states; "
     "registers that change outside the declared write set and outputs that depend on undeclared registers are violations. "
     "The machine is the specification, so no per-instruction model is written for the check; only the classes the corpora "
-    "reach are covered, arm/thumb/m68k/mips are not executed."
+    "reach (plus one stand-alone sweep of every isa class) are covered, thumb/m68k/mips are not executed."
 )
 
 NSTATES_QUICK = 6
@@ -133,6 +139,7 @@ def excluded_reason(cls, target=TARGET, ins=None):
 
 
 EXCLUDED_CLASSES_DOC = [
+    "arm: b / b<cond> / bl / blx and every write of the pc (control transfer), adr and ldr literal (pc operand), data pseudo-instructions; mcr / mrc are not executed by the emulator (counted 'isa form not judged'); push / pop ARE judged (sp implicit)",
     "control transfer (jmp, jcc, jmpshort, jmp r/m)",
     "call / call *reg / ret",
     "push / pop (and the xmm push/pop pseudo-instructions)",
@@ -962,6 +969,24 @@ _LINE = re.compile(r"^(WRITE|READ) tgt=(\S+) cls=(\S+) reg=(\S+) out=(\S+) rm=(\
 def _rm_register(inst):
     """"<full register>@<operand position>" of the r/m operand when it is in register mode
     (RmReg8/16/32/64), else None."""
+    if inst.arm:
+        # ARM: "<full register>@<position>" of the first register operand (the destination / transferred register),
+        # or "set:<r>+<r>..." for a register-list operand; the classifiers of the known findings name it
+        def num(name):
+            for cname in ("ArmRegister", "LowArmRegister"):
+                r = _regmap(inst.target).get((cname, name.split("#")[0]))
+                if r is not None and armstep.locate(r):
+                    return armstep.locate(r)[1]
+            return None
+
+        for pos, a in enumerate(inst.args):
+            if isinstance(a, list) and a and a[0] == "s":
+                nums = sorted(n for n in (num(x) for x in a[1]) if n is not None)
+                return "set:" + "+".join("r%d" % n for n in nums)
+            if isinstance(a, list) and a and a[0] == "r":
+                n = num(a[1])
+                return None if n is None else "r%d@%d" % (n, pos)
+        return None
     if inst.emu:
         return None
     for pos, a in enumerate(inst.args):
@@ -1324,6 +1349,7 @@ RM_DEST_UNARY = frozenset(["Neg", "Not", "Shl", "Shr", "Dec", "ShlCl", "ShrCl", 
 RM_DEST_BINARY = frozenset(["add_ins", "or_ins", "and_ins", "sub_ins", "xor_ins", "mov_ins"])
 
 
+ARM_CONDITIONAL = frozenset(["movls", "subcc", "subcs", "subne"])
 SHIFT_BY_CL = frozenset(["ShlCl", "ShrCl", "SarCl", "RolCl8", "RorCl8", "ShlCl8", "ShrCl8", "SarCl8"])
 
 
@@ -1336,6 +1362,21 @@ def classify_failure(kind, cid, reg, out, rm, target=TARGET):
         # defect: the output that depends on an undeclared register is that register itself
         if kind == "READ" and base in ("CAddi", "cand_ins", "cor_ins", "csub_ins", "cxor_ins") and out == reg:
             return "C07-KF6"
+        return None
+    if target == ARM_TARGET:
+        # KF8: a conditional instruction whose condition fails leaves rd alone, so its value after the instruction
+        # depends on rd; the classes made by inter_twine keep rd write-only.  Model: the output that depends on an
+        # undeclared register is that register itself, and it is the destination (operand 0)
+        if kind == "READ" and base in ARM_CONDITIONAL and out == reg and rm == reg + "@0":
+            return "C07-KF8"
+        # KF9: strh declares the stored register (operand 0) as written instead of read: memory (and the
+        # 'output' rd, which the instruction never changes) depends on it
+        if kind == "READ" and base == "Strh" and rm == reg + "@0" and out in (reg, "arena"):
+            return "C07-KF9"
+        # KF10: the registers of a push / pop list are no operands for used_registers / defined_registers
+        if rm is not None and rm.startswith("set:") and reg in rm[4:].split("+"):
+            if (kind == "READ" and base == "Push" and out == "arena") or (kind == "WRITE" and base == "Pop"):
+                return "C07-KF10"
         return None
     if target != TARGET:
         return None
@@ -2145,35 +2186,43 @@ def run(ctx):
     targets = [TARGET]
     rv_ok, rv_note = rvstep.validated()
     ctx.stats.notes.append(rv_note)
-    if rv_ok:
-        # the RISC-V sources go to the last NRV shards only: each of them builds the two RISC-V
-        # architecture objects (2-3 s each) itself, the other shards and the parent never do
-        NRV = 4
-        shards = _split_sources(idiom_sources(), nw - NRV) + _split_sources(rv_idiom_sources(), NRV)
-        targets += list(RV_TARGETS)
+    arm_ok, arm_note = armstep.validated()
+    ctx.stats.notes.append(arm_note)
+    emu_targets = (list(RV_TARGETS) if rv_ok else []) + ([ARM_TARGET] if arm_ok else [])
+    emu_sources = (rv_idiom_sources() if rv_ok else []) + (arm_idiom_sources() if arm_ok else [])
+    if emu_targets:
+        # the sources of the emulated targets go to the last NEMU shards only: each of them builds the RISC-V / ARM
+        # architecture objects (1-3 s each) itself, the other shards and the parent never do
+        NEMU = 4
+        shards = _split_sources(idiom_sources(), nw - NEMU) + _split_sources(emu_sources, NEMU)
+        targets += emu_targets
     else:
+        NEMU = 0
         shards = _split_sources(idiom_sources(), nw)
-    # quick: RISC-V is covered through the fixed idioms and their variants only
+    # quick: RISC-V and ARM are covered through the fixed idioms, their variants and the isa sweep only
     ptargets = (TARGET,) if ctx.quick else tuple(targets)
     # isa sweep: quick = three fixed operand tuples per (class, operand form): distinct registers,
     # other registers + another integer, all registers equal; thorough adds 12 drawn tuples x 6 rounds
     kvar, nex = ctx.scale((0, 0), (12, 6))
     isa_units(TARGET)  # enumerated once here, inherited by the forked shards
-    if rv_ok:
-        sweeps = [((TARGET,), w, nw - NRV, kvar, nex) for w in range(nw - NRV)] + [(RV_TARGETS, w, NRV, kvar, nex) for w in range(NRV)]
-    else:
-        sweeps = [((TARGET,), w, nw, kvar, nex) for w in range(nw)]
+    sweeps = [((TARGET,), w, nw - NEMU, kvar, nex) for w in range(nw - NEMU)] + [(tuple(emu_targets), w, NEMU, kvar, nex) for w in range(NEMU)]
     ctx.pmap(_worker, [(subseed(ctx.seed, PID, w), shards[w], nprog, nvar, nstates, ptargets, sweeps[w]) for w in range(nw)])
     ctx.extra["needs_context"] = {k[len("needs_context:") :]: v for k, v in ctx.stats.hist.items() if k.startswith("needs_context:")}
     ctx.extra["isa_sweep"] = "every class of the isa that vf/isagen.py instantiates, outside the excluded categories, once per operand form (register mode and every memory mode), judged stand-alone by its own annotations"
-    ctx.extra["targets_covered"] = ["x86_64 (native single-stepping on the host CPU)"] + (
-        ["riscv, riscv:rvc (RV32IM+C integer instructions in the emulator vf/rv32.py, which passed its own self-check)"] if rv_ok else []
+    ctx.extra["targets_covered"] = (
+        ["x86_64 (native single-stepping on the host CPU)"]
+        + (["riscv, riscv:rvc (RV32IM+C integer instructions in the emulator vf/rv32.py, which passed its own self-check)"] if rv_ok else [])
+        + (["arm (A32 integer instructions, conditional ones included, in the emulator vf/arm32.py, which passed its own self-check; flags are implicit state)"] if arm_ok else [])
     )
-    ctx.extra["targets_not_covered"] = ([] if rv_ok else ["riscv, riscv:rvc (vf/rv32.py did not pass its self-check: %s)" % rv_note]) + [
-        "riscv:rvf (no floating point in the emulator)",
-        "arm",
-        "arm:thumb",
-        "m68k",
-        "mips",
-    ]
+    ctx.extra["targets_not_covered"] = (
+        ([] if rv_ok else ["riscv, riscv:rvc (vf/rv32.py did not pass its self-check: %s)" % rv_note])
+        + ([] if arm_ok else ["arm (vf/arm32.py did not pass its self-check: %s)" % arm_note])
+        + [
+            "riscv:rvf (no floating point in the emulator)",
+            "arm: coprocessor classes mcr / mrc and the VFP classes (not modelled by the emulator), control transfers and pc-relative classes (b*, bl, blx, adr, ldr literal: excluded)",
+            "arm:thumb",
+            "m68k",
+            "mips",
+        ]
+    )
     ctx.extra["excluded_instruction_classes"] = EXCLUDED_CLASSES_DOC
